@@ -186,6 +186,8 @@ func runC07(c *core.Ctx) {
 	runR76(c)
 	runR77(c)
 	runR78(c)
+	c.Rule("R7.9", "a request header has one owner: a decoder handed the header its caller releases never puts it back into the pool itself (a header released twice is given to two connections, whose requests then overwrite each other's length fields)", 2)
+	runR147(c, "R7.9", poolWrappers(c), "protocol")
 }
 
 // rowQuiet: the quiet flag of the request built in the row's block.
@@ -809,6 +811,10 @@ func runR76(c *core.Ctx) {
 					c.Check(min.Equal(blen), "R7.6", key, pos, "ReadAtLeast with min == len(buf) = "+min.String(), fmt.Sprintf("ReadAtLeast may return with %s of %s bytes read: the rest of the buffer is stale and the stream position depends on how the packet was segmented", min.String(), blen.String()))
 				case (cc.IsInvoke() && cc.Method.Name() == "Read" && types.TypeString(cc.Value.Type(), nil) == "io.Reader") || name == "(*bufio.Reader).Read":
 					c.Violate("R7.6", ordinalKey(counts, core.FuncName(fn)+"#bare-read"), pos, "a bare Read may return fewer bytes than asked for: decoding would depend on packet boundaries")
+				case name == "(*bufio.Reader).ReadLine" || name == "(*bufio.Reader).ReadSlice":
+					c.Violate("R7.6", ordinalKey(counts, core.FuncName(fn)+"#partial-line-read"), pos, short(name)+" returns at most one buffer of a longer line (isPrefix / ErrBufferFull): a long command line is cut and its rest is decoded as another request")
+				case name == "(*bufio.Reader).ReadString" || name == "(*bufio.Reader).ReadBytes":
+					c.OK("R7.6", ordinalKey(counts, core.FuncName(fn)+"#line-read"), pos, "whole-line read")
 				}
 			})
 		}
